@@ -70,6 +70,24 @@ def pool(n: int):
     return ctx.Pool(max(1, n))
 
 
+def cli(argv, stdin=None):
+    """Run the package's command line (eudoxia.__main__.main) in this process with stdout/stderr swallowed.
+    Returns (exit code or 0, captured text).  A SystemExit is the command's way of refusing."""
+    import io
+    from eudoxia.__main__ import main as eudoxia_main
+    so, se = sys.stdout, sys.stderr
+    buf = io.StringIO()
+    sys.stdout = sys.stderr = buf
+    code = 0
+    try:
+        eudoxia_main(list(argv))
+    except SystemExit as e:
+        code = e.code if isinstance(e.code, int) else 1
+    finally:
+        sys.stdout, sys.stderr = so, se
+    return code, buf.getvalue()
+
+
 def import_repo():
     """Make `import eudoxia` resolve to REPO as it is on disk now, silently."""
     import logging
